@@ -5,5 +5,5 @@ CONSTANTS
   P1 <- Sym68 P2 <- Sym68 P3 <- Sym68 P4 <- Sym68
 INIT DecInit
 NEXT DecNext
-INVARIANTS DecLemma DecAlgoLemma
+INVARIANTS DecLemma
 CHECK_DEADLOCK FALSE
